@@ -3801,27 +3801,14 @@ where
         self.add_error(format!("expected type {}, got {:?}", ident, self.cbor));
         Ok(())
       }
-      Value::Integer(i) => {
-        if is_ident_uint_data_type(self.state.cddl, ident) {
-          if i128::from(*i).is_negative() {
-            self.add_error(format!("expected type {}, got {:?}", ident, self.cbor));
-          }
+      Value::Integer(_) | Value::Float(_) => {
+        // uint / unsigned admit only non-negative and nint only negative
+        // integers; the other numeric names admit their whole kind
+        if !numeric_ident_matches_cbor_value(self.state.cddl, ident, &self.cbor) {
+          self.add_error(format!("expected type {}, got {:?}", ident, self.cbor));
+        }
 
-          Ok(())
-        } else if ident_numeric_kind(self.state.cddl, ident).is_some_and(NumericKind::admits_int) {
-          Ok(())
-        } else {
-          self.add_error(format!("expected type {}, got {:?}", ident, self.cbor));
-          Ok(())
-        }
-      }
-      Value::Float(_) => {
-        if ident_numeric_kind(self.state.cddl, ident).is_some_and(NumericKind::admits_float) {
-          Ok(())
-        } else {
-          self.add_error(format!("expected type {}, got {:?}", ident, self.cbor));
-          Ok(())
-        }
+        Ok(())
       }
       Value::Text(_) => {
         // The tagged text types of the prelude (tdate, uri, b64url, ...) do
